@@ -92,7 +92,11 @@ fn v2_len(x: &[u8]) -> Option<usize> {
 }
 
 pub fn judge(c: &Pair, st: &mut Stats) -> Verdict {
-    let (x, t) = (&c.0, &c.1);
+    // x is parsed from this thread's reusable read buffer (the same start address for every case)
+    crate::engine::in_arena(&c.0, |x| judge_at(c, x, &c.1, st))
+}
+
+fn judge_at(c: &Pair, x: &Vec<u8>, t: &Vec<u8>, st: &mut Stats) -> Verdict {
     // which parsers accept x at all?
     let a1 = matches!(imp::v1_bytes(x), Ok(Ok(_)));
     let a2 = matches!(imp::v2_parse(x), Ok(Ok(_)));
